@@ -48,7 +48,7 @@ def feats(tree):
 
 # plumbing for known-finding attribution only (mirrors Rel!ToOne / Rel!ToMany): does one query level of the filter
 # reach the same table through two different to-one relationship paths?
-TOONE = {"Org": {"lead": "Author"}, "Author": {"org": "Org", "info": "AuthorInfo", "home": "Org"}, "Post": {"author": "Author", "info": "PostInfo"},
+TOONE = {"Org": {"lead": "Author"}, "Author": {"org": "Org", "info": "AuthorInfo", "home": "Org", "boss": "Author"}, "Post": {"author": "Author", "info": "PostInfo"},
          "Comment": {"post": "Post"}}
 TOMANY = {"Org": {"authors": "Author"}, "Author": {"posts": "Post", "edited": "Post"}, "Post": {"comments": "Comment", "authors": "Author"}}
 
